@@ -1628,6 +1628,10 @@ def run(chk):
         for line, arr, ka, idx, ki in viol:
             chk.violation(r_fi, "%s@%s[%s]" % (f["q"], arr[:30], idx[:30]), "%s: `%s` holds one entry per %s cell but is read at `%s`, a%s index: with inactive cells in the grid this is the entry of another cell (or beyond the end of the array)" % (f["q"], arr, ka, idx, "n active" if ki == "active" else " global"), f["file"], line)
 
+    # the unit conversions the restart writer applies and the loader inverts: mutual inverses (rules of C02, same facts)
+    import rules.C02 as c02
+    c02.run(core.Only(chk, {"C02.affine", "C02.inv", "C02.io", "C02.wire", "C02.offset", "C02.len"}))
+
     chk.assumptions += [
         "slots are joined on the array enum and enumerator (XGRP: on the integer of the key->index tables)",
         "mnemonic->measure and slot-name->mnemonic grammars frozen in rules/C05.py (documented Eclipse naming)",
